@@ -51,7 +51,8 @@ def make_tree(root, rng, big=True):
         sub = rng.choice([f"sub-{rng.randrange(1, 4):02d}", f"sub-CTL{rng.randrange(1, 3)}", "sub-Pilot_a"])
         task = rng.choice(["A", "B", "rest"])
         style = rng.choice(["task-", "task_"])
-        d = rng.choice([sub, f"{sub}/ses-1/eeg", f"{sub}/eeg", "", f"{sub}/ses-Pre/EEG", f"{sub}/Run 2 (retest)"])
+        d = rng.choice([sub, f"{sub}/ses-1/eeg", f"{sub}/eeg", "", f"{sub}/ses-Pre/EEG", f"{sub}/Run 2 (retest)",
+                        f"task_{rng.choice(['A', 'B', 'rest'])}_sessions", f"{sub}/task-{rng.choice(['A', 'B'])}_old"])
         name = f"{sub}_{style}{task}_run-{i}_events.tsv"
         rows = ["onset\tduration\ttrial_type\tresponse"]
         n = rng.choice([0, 3, 40, 4000 if big else 60, 9000 if big else 80])
@@ -196,6 +197,15 @@ def run_history_case(case, rec):
             run_remodel_backup.main([root, "-x", "derivatives"])
         else:
             BackupManager(root).create_backup([os.path.join(os.path.realpath(root), r) for r in rels], backup_name=name)
+        # a second, legitimately empty backup (a selection that matched nothing)
+        empty_name = "empty_back"
+        BackupManager(root).create_backup([], backup_name=empty_name)
+        empty_dir = os.path.join(root, "derivatives", "remodel", "backups", empty_name)
+
+        def dir_state(dname):
+            return {os.path.relpath(os.path.join(d0, f), dname): open(os.path.join(d0, f), "rb").read()
+                    for d0, _, fs in os.walk(dname) for f in fs}
+        empty_state = dir_state(empty_dir)
         backup_dir = os.path.join(root, "derivatives", "remodel", "backups", name)
         backup_state = {os.path.relpath(os.path.join(d, f), backup_dir): open(os.path.join(d, f), "rb").read()
                         for d, _, fs in os.walk(backup_dir) for f in fs}
@@ -303,6 +313,13 @@ def run_history_case(case, rec):
                              for d, _, fs in os.walk(backup_dir) for f in fs}
                 if now_state != backup_state:
                     rec.violation("run_remodel_backup altered an existing backup", case_now)
+                    return
+                # the empty backup is a backup like any other
+                res = BackupManager(root).create_backup([os.path.join(os.path.realpath(root), r) for r in rels
+                                                         if os.path.exists(os.path.join(root, r))], backup_name=empty_name)
+                if res is not False or dir_state(empty_dir) != empty_state:
+                    rec.violation("a second backup under the name of an existing empty backup returned True or wrote files",
+                                  case_now)
                     return
         # every history ends with a full restore
         BackupManager(root).restore_backup(name, verbose=False)
